@@ -257,6 +257,7 @@ type Case struct {
 	Env     *EnvCase    `json:"env,omitempty"`
 	TypeStr string      `json:"type,omitempty"`
 	Texts   any         `json:"texts,omitempty"`
+	strict  bool
 }
 
 type result struct {
@@ -266,48 +267,101 @@ type result struct {
 	Panics   int
 }
 
+// fmtOutcomes: the loads of one (type, document, key spelling) triple through every format.
+// The secondary styles (YAML flow, TOML inline) are loaded for the declared key spelling only.
+type fmtOutcomes struct {
+	J, YB, YF, TS, TI outcome
+	TOML, Secondary   bool
+}
+
+func loadAll(spec *StructSpec, doc *Node, variant int) fmtOutcomes {
+	t := spec.Type()
+	r := render(recase(doc, variant))
+	o := fmtOutcomes{TOML: r.TOML, Secondary: variant == 0}
+	o.J = load(conf.LoadFromJsonBytes, r.JSON, t)
+	o.YB = load(conf.LoadFromYamlBytes, r.YAMLBlock, t)
+	if o.Secondary {
+		o.YF = load(conf.LoadFromYamlBytes, r.YAMLFlow, t)
+	}
+	if r.TOML {
+		o.TS = load(conf.LoadFromTomlBytes, r.TOMLSections, t)
+		if o.Secondary {
+			o.TI = load(conf.LoadFromTomlBytes, r.TOMLInline, t)
+		}
+	}
+	return o
+}
+
 // checkFmt: the same document rendered as JSON, YAML (block and flow style) and TOML (sections
 // and inline style; only if the document has no null) must get the same verdict and deeply equal
 // values from conf.LoadFromJsonBytes / LoadFromYamlBytes / LoadFromTomlBytes.
 func checkFmt(spec *StructSpec, doc *Node, variant int) result {
-	t := spec.Type()
-	r := render(recase(doc, variant))
-	j := load(conf.LoadFromJsonBytes, r.JSON, t)
-	yb := load(conf.LoadFromYamlBytes, r.YAMLBlock, t)
-	yf := load(conf.LoadFromYamlBytes, r.YAMLFlow, t)
-	outs := []outcome{j, yb, yf}
+	return judgeFmt(loadAll(spec, doc, variant))
+}
+
+func judgeFmt(o fmtOutcomes) result {
+	j, yb := o.J, o.YB
+	outs := []outcome{j, yb}
 	parts := []string{"json=" + j.Verdict, "yaml=" + rel(yb, j)}
 	bad := !same(yb, j)
-	if !same(yf, yb) {
-		parts = append(parts, "yamlflow="+rel(yf, j))
-		bad = true
-	}
-	detail := fmt.Sprintf("json: %s | yaml: %s", show(j), show(yb))
-	if r.TOML {
-		ts := load(conf.LoadFromTomlBytes, r.TOMLSections, t)
-		ti := load(conf.LoadFromTomlBytes, r.TOMLInline, t)
-		outs = append(outs, ts, ti)
-		parts = append(parts, "toml="+rel(ts, j))
-		bad = bad || !same(ts, j)
-		if !same(ti, ts) {
-			parts = append(parts, "tomlinline="+rel(ti, j))
+	if o.Secondary {
+		outs = append(outs, o.YF)
+		if !same(o.YF, yb) {
+			parts = append(parts, "yamlflow="+rel(o.YF, j))
 			bad = true
 		}
-		detail += " | toml: " + show(ts)
+	}
+	if o.TOML {
+		outs = append(outs, o.TS)
+		parts = append(parts, "toml="+rel(o.TS, j))
+		bad = bad || !same(o.TS, j)
+		if o.Secondary {
+			outs = append(outs, o.TI)
+			if !same(o.TI, o.TS) {
+				parts = append(parts, "tomlinline="+rel(o.TI, j))
+				bad = true
+			}
+		}
 	} else {
 		parts = append(parts, "toml=n/a")
 	}
-	res := result{Detail: detail}
-	for _, o := range outs {
-		if o.Verdict == "ok" {
+	res := result{}
+	for _, x := range outs {
+		if x.Verdict == "ok" {
 			res.Accepted = true
 		}
-		if o.Verdict == "panic" {
+		if x.Verdict == "panic" {
 			res.Panics++
 		}
 	}
 	if bad {
 		res.Sig = strings.Join(parts, ",")
+	}
+	if bad || alwaysDetail {
+		res.Detail = fmt.Sprintf("json: %s | yaml: %s", show(j), show(yb))
+		if o.Secondary && !same(o.YF, yb) {
+			res.Detail += " | yaml(flow style): " + show(o.YF)
+		}
+		if o.TOML {
+			res.Detail += " | toml: " + show(o.TS)
+			if o.Secondary && !same(o.TI, o.TS) {
+				res.Detail += " | toml(inline style): " + show(o.TI)
+			}
+		}
+	}
+	return res
+}
+
+// alwaysDetail: replay mode prints the outcomes even when the case passes.
+var alwaysDetail bool
+
+// judgeCase compares the JSON outcome under a re-spelling of the keys with the outcome under
+// the declared spelling.
+func judgeCase(j0, jv outcome, variant int) result {
+	res := result{Accepted: j0.Verdict == "ok" || jv.Verdict == "ok"}
+	if !same(j0, jv) {
+		res.Sig = "declared=" + j0.Verdict + "," + variantNames[variant] + "=" + rel(jv, j0)
+		res.Detail = fmt.Sprintf("declared keys: %s | %s keys: %s", show(j0), variantNames[variant], show(jv))
 	}
 	return res
 }
@@ -318,11 +372,8 @@ func checkCase(spec *StructSpec, doc *Node, variant int) result {
 	t := spec.Type()
 	j0 := load(conf.LoadFromJsonBytes, render(doc).JSON, t)
 	jv := load(conf.LoadFromJsonBytes, render(recase(doc, variant)).JSON, t)
-	res := result{Accepted: j0.Verdict == "ok" || jv.Verdict == "ok",
-		Detail: fmt.Sprintf("declared keys: %s | %s keys: %s", show(j0), variantNames[variant], show(jv))}
-	if !same(j0, jv) {
-		res.Sig = "declared=" + j0.Verdict + "," + variantNames[variant] + "=" + rel(jv, j0)
-	}
+	res := judgeCase(j0, jv, variant)
+	res.Detail = fmt.Sprintf("declared keys: %s | %s keys: %s", show(j0), variantNames[variant], show(jv))
 	return res
 }
 
@@ -336,14 +387,16 @@ func checkStd(spec *StructSpec, doc *Node, variant int) (result, string) {
 	text := render(recase(doc, variant)).JSON
 	g := load(gzJSON, text, t)
 	s := load(stdJSON, text, t)
-	res := result{Accepted: g.Verdict == "ok" && s.Verdict == "ok",
-		Detail: fmt.Sprintf("mapping.UnmarshalJsonBytes: %s | encoding/json: %s", show(g), show(s))}
+	res := result{Accepted: g.Verdict == "ok" && s.Verdict == "ok"}
 	if g.Verdict == "panic" {
 		res.Panics++
 	}
 	bucket := g.Verdict + "/" + s.Verdict
 	if res.Accepted && !reflect.DeepEqual(g.Val, s.Val) {
 		res.Sig = "gozero=" + rel(g, s) + ",std=ok"
+	}
+	if res.Sig != "" || alwaysDetail {
+		res.Detail = fmt.Sprintf("mapping.UnmarshalJsonBytes: %s | encoding/json: %s", show(g), show(s))
 	}
 	return res, bucket
 }
